@@ -319,6 +319,10 @@ func (op HeapOp) src() string {
 		return set(fmt.Sprintf("(append-bytes! %s %q)", v(op.A), op.Key))
 	case "append-bytes":
 		return set(fmt.Sprintf("(append-bytes %s %q)", v(op.A), op.Key))
+	case "append-bytes-v!":
+		return set(fmt.Sprintf("(append-bytes! %s %s)", v(op.A), v(op.B)))
+	case "append-bytes-v":
+		return set(fmt.Sprintf("(append-bytes %s %s)", v(op.A), v(op.B)))
 	case "sort":
 		cmp := "<"
 		if op.Desc {
@@ -328,6 +332,12 @@ func (op HeapOp) src() string {
 		return set(fmt.Sprintf("(stable-sort %s %s)", less, v(op.A)))
 	case "sort-key":
 		return set(fmt.Sprintf("(stable-sort < %s (lambda (x) %s))", v(op.A), fp("(- 0 x)")))
+	case "sort-mod":
+		return set(fmt.Sprintf("(stable-sort < %s (lambda (x) %s))", v(op.A), fp("(mod x 3)")))
+	case "copy":
+		return set(fmt.Sprintf("(concat '%s %s)", op.Type, v(op.A)))
+	case "append-ts-bytes":
+		return set(fmt.Sprintf("(append 'bytes %s %s)", v(op.A), el))
 	case "sort-str":
 		cmp := "string<"
 		if op.Desc {
@@ -474,6 +484,30 @@ func (h *heap) valid(op HeapOp) bool {
 		return true
 	case "sort", "sort-key":
 		return isSeqV(a) && allInts(a.obj)
+	case "sort-mod":
+		if !isSeqV(a) || !allInts(a.obj) {
+			return false
+		}
+		for _, c := range a.obj.cells() {
+			if c.i < 0 {
+				return false
+			}
+		}
+		return true
+	case "copy":
+		return isSeqV(a)
+	case "append-bytes-v!", "append-bytes-v":
+		return a.k == hRef && a.obj.kind == oBytes && b.k == hRef && b.obj.kind == oBytes
+	case "append-ts-bytes":
+		if a.k != hRef || a.obj.kind != oBytes || len(op.Elems) == 0 {
+			return false
+		}
+		for _, e := range op.Elems {
+			if strings.HasPrefix(e, "v") {
+				return false
+			}
+		}
+		return true
 	case "sort-str":
 		if !isSeqV(a) || a.obj.n == 0 {
 			return false
@@ -515,8 +549,12 @@ func (h *heap) outSize(op HeapOp) int {
 		return n(a) + len(op.Elems)
 	case "cons", "insert-index", "insert-sorted":
 		return n(a) + 1
-	case "reverse", "map-inc", "select", "reject", "sort", "sort-key", "sort-str":
+	case "reverse", "map-inc", "select", "reject", "sort", "sort-key", "sort-str", "sort-mod", "copy":
 		return n(a)
+	case "append-ts-bytes":
+		return n(a) + len(op.Elems)
+	case "append-bytes-v!", "append-bytes-v":
+		return n(a) + n(h.vars[op.B])
 	case "zip":
 		return 2 * min(n(a), n(b))
 	case "concat":
@@ -547,7 +585,7 @@ func (h *heap) apply(op HeapOp, callbackFailed bool) {
 		return out
 	}
 	if callbackFailed {
-		if op.Kind == "sort" || op.Kind == "sort-key" {
+		if op.Kind == "sort" || op.Kind == "sort-key" || op.Kind == "sort-mod" {
 			// a failed in-place sort leaves the same elements in an unknown order
 			h.unknown[a.obj.back] = [2]int{a.obj.off, a.obj.off + a.obj.n}
 		}
@@ -723,6 +761,28 @@ func (h *heap) apply(op HeapOp, callbackFailed bool) {
 		res = a
 	case "append-bytes":
 		res = hval{k: hRef, obj: &hobj{kind: oBytes, b: append(append([]byte(nil), a.obj.b...), []byte(op.Key)...)}}
+	case "append-bytes-v!":
+		// the source's bytes are copied: the two values stay independent
+		a.obj.b = append(append([]byte(nil), a.obj.b...), b.obj.b...)
+		res = a
+	case "append-bytes-v":
+		res = hval{k: hRef, obj: &hobj{kind: oBytes, b: append(append([]byte(nil), a.obj.b...), b.obj.b...)}}
+	case "sort-mod":
+		// equal keys keep their order: the sort is stable
+		cs := a.obj.cells()
+		sort.SliceStable(cs, func(i, j int) bool { return cs[i].i%3 < cs[j].i%3 })
+		if h.covers(a.obj) {
+			delete(h.unknown, a.obj.back)
+		}
+		res = a
+	case "copy":
+		res = newSeq(kind, a.obj.cells())
+	case "append-ts-bytes":
+		nb := append([]byte(nil), a.obj.b...)
+		for _, e := range op.Elems {
+			nb = append(nb, byte(h.elem(e).i))
+		}
+		res = hval{k: hRef, obj: &hobj{kind: oBytes, b: nb}}
 	case "sort-str":
 		cs := a.obj.cells()
 		sort.SliceStable(cs, func(i, j int) bool {
@@ -802,11 +862,18 @@ func (heapEngine) Gen(r *Rand, tier string) any {
 	}
 	kinds := []string{"list", "vector", "map", "bytes", "mkseq", "alias", "slice", "slice", "cdr", "rest", "append", "append", "cons", "reverse",
 		"map-inc", "select", "reject", "zip", "insert-index", "insert-sorted", "concat", "assoc", "dissoc", "keys", "nth", "get", "length",
-		"assoc!", "assoc!", "dissoc!", "append!", "append!", "append!", "append-bytes!", "append-bytes", "slice-bytes", "append!-bytes", "sort", "sort", "sort", "sort-key", "sort-str", "sort-str", "keys"}
+		"assoc!", "assoc!", "dissoc!", "append!", "append!", "append!", "append-bytes!", "append-bytes", "slice-bytes", "append!-bytes", "sort", "sort", "sort", "sort-key", "sort-str", "sort-str", "keys", "sort-mod", "sort-mod", "copy", "copy", "append-ts-bytes", "append-bytes-v!", "append-bytes-v!", "append-bytes-v"}
+	var planned []HeapOp
 	for len(c.Ops) < n {
 		// repair: a backing left in unknown order is re-sorted next
 		var op HeapOp
 		repaired := false
+		if len(h.unknown) == 0 {
+			for len(planned) > 0 && !repaired {
+				op, planned = planned[0], planned[1:]
+				repaired = h.valid(op)
+			}
+		}
 		for i, v := range h.vars {
 			if isSeqV(v) && h.covers(v.obj) {
 				op = HeapOp{Kind: "sort", Dst: i, A: i}
@@ -861,15 +928,26 @@ func (heapEngine) Gen(r *Rand, tier string) any {
 						}
 						return true
 					})
-				case "sort", "sort-key", "map-inc", "select", "reject", "insert-sorted":
+				case "sort", "sort-key", "sort-mod", "map-inc", "select", "reject", "insert-sorted":
 					want(func(v hval) bool { return isSeqV(v) && v.obj.n >= 2 && allInts(v.obj) })
 				case "keys", "get", "assoc", "assoc!", "dissoc", "dissoc!":
 					want(isKind(oMap))
 				case "append!":
 					want(isKind(oVec))
-				case "append-bytes!", "append-bytes", "slice-bytes", "append!-bytes":
+				case "append-bytes-v!", "append-bytes-v":
 					want(isKind(oBytes))
-				case "slice", "rest", "reverse", "append", "nth", "concat", "zip", "insert-index":
+					var cands []int
+					for vi, v := range h.vars {
+						if isKind(oBytes)(v) {
+							cands = append(cands, vi)
+						}
+					}
+					if len(cands) > 0 {
+						op.B = cands[r.Intn(len(cands))]
+					}
+				case "append-bytes!", "append-bytes", "slice-bytes", "append!-bytes", "append-ts-bytes":
+					want(isKind(oBytes))
+				case "slice", "rest", "reverse", "append", "nth", "concat", "zip", "insert-index", "copy":
 					want(isSeqV)
 				case "cdr", "cons":
 					want(isKind(oList))
@@ -908,7 +986,7 @@ func (heapEngine) Gen(r *Rand, tier string) any {
 						op.I = r.Range(0, len(a.obj.b))
 						op.J = r.Range(op.I, len(a.obj.b))
 					}
-				case "append!-bytes":
+				case "append!-bytes", "append-ts-bytes":
 					op.Elems = intsN(1, 3)
 				case "append", "append!":
 					op.Elems = elemsN(1, 3)
@@ -930,7 +1008,7 @@ func (heapEngine) Gen(r *Rand, tier string) any {
 					op.Desc = r.Bool()
 				}
 				switch op.Kind {
-				case "map-inc", "select", "reject", "sort", "sort-key":
+				case "map-inc", "select", "reject", "sort", "sort-key", "sort-mod":
 					if r.Chance(1, 6) {
 						op.FailAt = r.Range(1, 4)
 					}
@@ -954,6 +1032,32 @@ func (heapEngine) Gen(r *Rand, tier string) any {
 			continue
 		}
 		h.apply(op, fails)
+		// a container that holds containers: reach in, change the element in
+		// place, and let the closing inspection look at both
+		if res := h.vars[op.Dst]; !fails && len(planned) == 0 && isSeqV(res) && res.obj.n > 0 && r.Chance(1, 3) {
+			cs := res.obj.cells()
+			var nested []int
+			for i, e := range cs {
+				if e.k == hRef {
+					nested = append(nested, i)
+				}
+			}
+			if len(nested) > 0 {
+				i := nested[r.Intn(len(nested))]
+				t := (op.Dst + 1 + r.Intn(heapVars-1)) % heapVars
+				planned = append(planned, HeapOp{Kind: "nth", Dst: t, A: op.Dst, I: i, Type: "list"})
+				switch cs[i].obj.kind {
+				case oVec:
+					planned = append(planned, HeapOp{Kind: "append!", Dst: t, A: t, Elems: intsN(1, 2), Type: "list"})
+				case oMap:
+					planned = append(planned, HeapOp{Kind: "assoc!", Dst: t, A: t, Key: PickStr(r, keys), Elems: intsN(1, 1), Type: "list"})
+				case oBytes:
+					planned = append(planned, HeapOp{Kind: "append-bytes!", Dst: t, A: t, Key: "q", Type: "list"})
+				case oList:
+					planned = append(planned, HeapOp{Kind: "sort", Dst: t, A: t, Type: "list"})
+				}
+			}
+		}
 	}
 	return c
 }
@@ -965,7 +1069,7 @@ func callbackCalls(h *heap, op HeapOp) int {
 		return 0
 	}
 	switch op.Kind {
-	case "map-inc", "select", "reject", "sort-key":
+	case "map-inc", "select", "reject", "sort-key", "sort-mod":
 		return a.obj.n
 	case "sort":
 		return a.obj.n - 1
@@ -1028,7 +1132,7 @@ func (heapEngine) Run(ci any, st *Stats) *Violation {
 			switch {
 			case cbFailed && out.Cond == "cb-fault":
 				st.Inc("fault_callback_failed_mid_operation")
-				if op.Kind == "sort" || op.Kind == "sort-key" {
+				if op.Kind == "sort" || op.Kind == "sort-key" || op.Kind == "sort-mod" {
 					st.Inc("reach_failed_callback_mid_sort")
 				}
 				faulted = true
@@ -1049,7 +1153,7 @@ func (heapEngine) Run(ci any, st *Stats) *Violation {
 			}
 			// reach probes
 			a := h.vars[op.A]
-			if (op.Kind == "sort" || op.Kind == "sort-key") && isSeqV(a) && a.obj.clamped && h.sharedBacking(a.obj) {
+			if (op.Kind == "sort" || op.Kind == "sort-key" || op.Kind == "sort-mod") && isSeqV(a) && a.obj.clamped && h.sharedBacking(a.obj) {
 				st.Inc("reach_sort_through_view")
 			}
 			if op.Kind == "append!" && a.k == hRef && a.obj.clamped && h.sharedBacking(a.obj) {
@@ -1106,7 +1210,7 @@ func (heapEngine) Run(ci any, st *Stats) *Violation {
 }
 
 func isMutating(k string) bool {
-	return strings.HasSuffix(k, "!") || k == "sort" || k == "sort-key" || k == "sort-str" || k == "append!-bytes"
+	return strings.HasSuffix(k, "!") || k == "sort" || k == "sort-key" || k == "sort-mod" || k == "sort-str" || k == "append!-bytes"
 }
 
 func (h *heap) touchesUnknown(v hval) bool {
